@@ -15,6 +15,8 @@ for d in sorted(glob.glob(os.path.join(ROOT, "seeded", "C*_*"))):
     out = [l.strip() for l in c.get("check_out", []) if l.strip().startswith(("what", "broken"))]
     rep = (out[0] if out else "").replace("what: ", "").replace("|", "/")
     kind = "concrete" if c.get("concrete_replay") else ("no-failing-input-found" if c.get("detected") else "MISSED")
+    if m.get("superseded"):
+        kind, rep = "superseded", m["superseded"].replace("|", "/")
     rows.append("| %s | %s | %s | %s |" % (os.path.basename(d), m.get("summary", "").replace("|", "/").replace("\n", " ")[:150], kind, rep[:150]))
 print("| seed | change | replay | what the check reports |")
 print("|---|---|---|---|")
